@@ -338,6 +338,25 @@ fn run_case<'a>(ctx: &'a Ctx, case: u64, acc: &'a mut Acc) -> CaseFut<'a> {
         let mut p = Parameters::new();
         p.add("s", "sentinel two".to_string()).unwrap();
         db.mutate("mutate { V{ s:$s i:2 } }", p).unwrap();
+        // integer literals written to and filtered on a Float field: the literal means the same double in both places
+        for lit in ["3", "-17", "9007199254740992", "9007199254740993", "-9007199254740993", "1234567890123456789", "9223372036854775807", "-9223372036854775807"] {
+            acc.count("position/Float/integer-literal", 1);
+            match db.mutate(&format!("mutate {{ V{{ f:{} }} }}", lit), Parameters::new()) {
+                Ok(q) => {
+                    let id = b64(&q.mutate_entities[0].node_to_mutate.id);
+                    match db.query(&format!("query {{ r: V(f = {}){{ id }} }}", lit), Parameters::new()) {
+                        Ok(r) => {
+                            let ids: Vec<String> = r["r"].as_array().map(|a| a.iter().filter_map(|x| x["id"].as_str().map(|s| s.to_string())).collect()).unwrap_or_default();
+                            if !ids.contains(&id) {
+                                acc.violation("C04/equality-filter-misses-the-row/Float/integer-literal-on-a-float-field", json!({"literal": lit, "returned": ids.len()}));
+                            }
+                        }
+                        Err(e) => acc.violation("C04/error-on-filter/Float/integer-literal-on-a-float-field", json!({"literal": lit, "error": e})),
+                    }
+                }
+                Err(e) => acc.violation("C04/valid-value-refused/Float/integer-literal-on-a-float-field", json!({"literal": lit, "error": e})),
+            }
+        }
         let n_values = ctx.tier.pick(60, 120);
         let mut violated = false;
         for _ in 0..n_values {
